@@ -206,6 +206,9 @@ func checkSoak(c kvh.Case) (pbt.Info, error) {
 				removals++
 			}
 			box.Remove(op.K)
+		case "clear":
+			m.Clear()
+			box.Clear()
 		}
 		fail := func(format string, a ...any) (pbt.Info, error) {
 			return info, fmt.Errorf("%s soak step %d %s(%d,%d): %s", c.Kind, i, op.O, op.K, op.V, fmt.Sprintf(format, a...))
@@ -309,6 +312,92 @@ func genSoak(kind string) func(t *rapid.T) kvh.Case {
 		}
 		return c
 	}
+}
+
+// genTide: one map grows to dozens or hundreds of pairs, shrinks to a small rest
+// (by Clear, or by removals that stop at a drawn remainder), and is then hit by Puts
+// that collide on the key AND on the value at once, by fresh Puts and by removals —
+// repeated for up to three tides.  High-water marks, rebuild thresholds and
+// whatever else a long life accumulates sit exactly at these turns.  The generator
+// keeps its own copy of the model only to aim the collisions at live pairs.
+func genTide(kind string) func(t *rapid.T) kvh.Case {
+	return func(t *rapid.T) kvh.Case {
+		c := kvh.Case{Kind: kind}
+		if kind == kvh.TreeBidi {
+			c.Cmp, c.VCmp = dom.Nat, dom.Rev
+		}
+		g := kvh.NewBidiModel()
+		put := func(k, v int) { c.Ops = append(c.Ops, kvh.Op{O: "put", K: k, V: v}); g.Put(k, v) }
+		rem := func(k int) { c.Ops = append(c.Ops, kvh.Op{O: "rem", K: k}); g.Remove(k) }
+		liveKeys := func() []int {
+			ks := make([]int, 0, len(g.Fwd))
+			for k := range g.Fwd {
+				ks = append(ks, k)
+			}
+			slices.Sort(ks)
+			return ks
+		}
+		tides := rapid.IntRange(1, 3).Draw(t, "tides")
+		next := 0
+		for tide := 0; tide < tides; tide++ {
+			n := rapid.IntRange(20, pbt.Size(280)).Draw(t, "high")
+			for i := 0; i < n; i++ {
+				put(next, 100000+next)
+				next++
+			}
+			if rapid.IntRange(0, 2).Draw(t, "how") == 1 {
+				c.Ops = append(c.Ops, kvh.Op{O: "clear"})
+				g.Clear()
+				for i, r := 0, rapid.IntRange(0, 6).Draw(t, "refill"); i < r; i++ {
+					put(next, 100000+next)
+					next++
+				}
+			} else {
+				rest := rapid.IntRange(0, max(1, len(g.Fwd)/3)).Draw(t, "rest")
+				ks := liveKeys()
+				step := rapid.SampledFrom([]int{1, 1, 3, 7}).Draw(t, "stride")
+				for off := 0; off < step && len(g.Fwd) > rest; off++ {
+					for j := off; j < len(ks) && len(g.Fwd) > rest; j += step {
+						rem(ks[j])
+					}
+				}
+			}
+			m := rapid.IntRange(4, 40).Draw(t, "turn")
+			for i := 0; i < m; i++ {
+				ks := liveKeys()
+				switch x := rapid.IntRange(0, 9).Draw(t, "op"); {
+				case x <= 4 && len(ks) >= 2: // key held AND value held by another key
+					a := ks[rapid.IntRange(0, len(ks)-1).Draw(t, "a")]
+					b := ks[rapid.IntRange(0, len(ks)-1).Draw(t, "b")]
+					put(a, g.Fwd[b])
+				case x <= 6:
+					put(next, 100000+next)
+					next++
+				case x == 7 && len(ks) >= 1: // new key takes a held value
+					put(next, g.Fwd[ks[rapid.IntRange(0, len(ks)-1).Draw(t, "b")]])
+					next++
+				case len(ks) >= 1:
+					rem(ks[rapid.IntRange(0, len(ks)-1).Draw(t, "r")])
+				}
+			}
+		}
+		return c
+	}
+}
+
+func TestTides(t *testing.T) {
+	for _, kind := range []string{kvh.HashBidi, kvh.TreeBidi} {
+		pbt.Run(t, pbt.Target[kvh.Case]{Name: kind + "/tides", Checks: 150, Gen: genTide(kind), Check: checkTide})
+	}
+}
+
+// checkTide is checkSoak with its own non-trivial rule (a shrink below a third of
+// the high-water mark followed by a double collision).
+func checkTide(c kvh.Case) (pbt.Info, error) {
+	info, err := checkSoak(c)
+	info.Labels = []string{"tide"}
+	info.NonTrivial = len(c.Ops) >= 40
+	return info, err
 }
 
 func TestGenerated(t *testing.T) {
